@@ -172,6 +172,119 @@ Qed.
 Theorem wf_str_bigint s enc : scalar_text s -> wf (str_bigint s enc).
 Proof. intro Hs. apply wf_import_bytes. apply encode_bytes_range. exact Hs. Qed.
 
+(* ---------- string literals denote texts of scalar values ---------- *)
+Open Scope N_scope.
+(* `unescape` with its literal patterns (92 = backslash, 123 = open brace) restated through `=?` *)
+Definition unescape_step (f : nat) (c : N) (r : text) : option text :=
+  if c =? 92 then
+    match r with
+    | [] => None
+    | e :: r2 =>
+      let simple (k : N) := match unescape f r2 with Some s => Some (k :: s) | None => None end in
+      if e =? 48 then simple 0 else if e =? 116 then simple 9 else if e =? 114 then simple 13
+      else if e =? 110 then simple 10 else if e =? 39 then simple 39 else if e =? 34 then simple 34
+      else if e =? 92 then simple 92
+      else if e =? 120 then
+        match r2 with
+        | h1 :: h2 :: r3 =>
+          match hex_digit h1, hex_digit h2 with
+          | Some a, Some b => let byte := (a * 16 + b) mod 256 in
+                              if 127 <? byte then None
+                              else match unescape f r3 with Some s => Some (byte :: s) | None => None end
+          | _, _ => None
+          end
+        | _ => None
+        end
+      else if e =? 117 then
+        match r2 with
+        | b :: r3 =>
+          if b =? 123 then
+            match unescape_u r3 8 0 with
+            | Some (cp, r4) => match unescape f r4 with Some s => Some (cp :: s) | None => None end
+            | None => None
+            end
+          else None
+        | [] => None
+        end
+      else None
+    end
+  else match unescape f r with Some s => Some (c :: s) | None => None end.
+
+Lemma unescape_cons f c r : unescape (S f) (c :: r) = unescape_step f c r.
+Proof.
+  unfold unescape_step. destruct (N.eqb_spec c 92) as [->|Hc].
+  - cbn [unescape]. destruct r as [|e r2]; [reflexivity|]. cbv zeta.
+    repeat match goal with |- (if ?b then _ else _) = _ => destruct b; [reflexivity|] end.
+    destruct (e =? 117); [|reflexivity].
+    destruct r2 as [|b r3]; [reflexivity|].
+    destruct (N.eqb_spec b 123) as [->|Hb]; [reflexivity|].
+    destruct b as [|p]; [reflexivity|].
+    do 7 (destruct p as [p|p|]; try reflexivity). exfalso; apply Hb; reflexivity.
+  - destruct c as [|p]; [reflexivity|].
+    do 7 (destruct p as [p|p|]; try reflexivity). exfalso; apply Hc; reflexivity.
+Qed.
+
+Lemma unescape_u_scalar i : forall t cp c r, scalar_text t -> unescape_u t i cp = Some (c, r) ->
+  is_scalar c = true /\ scalar_text r.
+Proof.
+  induction i as [|i IH]; intros t cp c r Ht E; [destruct t; discriminate|].
+  destruct t as [|x t']; [discriminate|]. inversion Ht; subst. cbn [unescape_u] in E.
+  destruct (x =? 125).
+  - destruct (is_scalar cp) eqn:Es; [|discriminate]. inversion E; subst. split; assumption.
+  - destruct (hex_digit x); [|discriminate]. eapply IH; eassumption.
+Qed.
+
+Lemma hex_digit_lt c d : hex_digit c = Some d -> d < 16.
+Proof.
+  unfold hex_digit, in_range. intro E.
+  destruct ((48 <=? c) && (c <=? 57)) eqn:E1; [inversion E; lia|].
+  destruct ((97 <=? c) && (c <=? 102)) eqn:E2; [inversion E; lia|].
+  destruct ((65 <=? c) && (c <=? 70)) eqn:E3; [inversion E; lia|discriminate].
+Qed.
+
+Lemma unescape_scalar fuel : forall t s, scalar_text t -> unescape fuel t = Some s -> scalar_text s.
+Proof.
+  induction fuel as [|f IH]; intros t s Ht E; [discriminate|].
+  destruct t as [|c r]; [inversion E; constructor|].
+  rewrite unescape_cons in E. unfold unescape_step in E. inversion Ht as [|? ? Hc Hr]; subst.
+  destruct (c =? 92).
+  2:{ destruct (unescape f r) eqn:E1; [|discriminate]. inversion E; subst.
+      constructor; [assumption|eapply IH; eassumption]. }
+  destruct r as [|e r2]; [discriminate|]. inversion Hr as [|? ? He Hr2]; subst. cbv zeta in E.
+  repeat match type of E with
+  | (if ?b then match unescape f r2 with _ => _ end else _) = _ =>
+      destruct b; [destruct (unescape f r2) eqn:E1; [|discriminate]; inversion E; subst;
+                   constructor; [reflexivity|eapply IH; eassumption]|]
+  end.
+  destruct (e =? 120).
+  { destruct r2 as [|h1 [|h2 r3]]; try discriminate.
+    inversion Hr2 as [|? ? ? Hr3']; subst. inversion Hr3' as [|? ? ? Hr3]; subst.
+    destruct (hex_digit h1) as [a|]; [|discriminate]. destruct (hex_digit h2) as [b|]; [|discriminate].
+    destruct (127 <? (a * 16 + b) mod 256) eqn:Eb; [discriminate|].
+    destruct (unescape f r3) eqn:E1; [|discriminate]. inversion E; subst.
+    constructor; [unfold is_scalar; lia|eapply IH; eassumption]. }
+  destruct (e =? 117); [|discriminate].
+  destruct r2 as [|b r3]; [discriminate|]. inversion Hr2; subst.
+  destruct (b =? 123); [|discriminate].
+  destruct (unescape_u r3 8 0) as [[cp r4]|] eqn:Eu; [|discriminate].
+  destruct (unescape_u_scalar _ _ _ _ _ ltac:(eassumption) Eu) as [Hcp Hr4].
+  destruct (unescape f r4) eqn:E1; [|discriminate]. inversion E; subst.
+  constructor; [assumption|eapply IH; eassumption].
+Qed.
+Open Scope Z_scope.
+
+Lemma Forall_removelast {A} (P : A -> Prop) l : Forall P l -> Forall P (removelast l).
+Proof.
+  induction 1 as [|x r Hx Hr IH]; [constructor|]. cbn [removelast].
+  destruct r; [constructor|]. constructor; assumption.
+Qed.
+
+Theorem str_contents_scalar raw s : scalar_text raw -> string_contents raw = Some s -> scalar_text s.
+Proof.
+  intros Hr E. unfold string_contents in E. eapply unescape_scalar; [|exact E].
+  unfold strip_quotes. apply Forall_removelast. destruct Hr; [constructor|assumption].
+Qed.
+
 Lemma get_bigint_wf v x : wf_value v -> get_bigint v = Some x -> wf x.
 Proof.
   destruct v; cbn [get_bigint wf_value]; intros Hw E; inversion E; subst; [exact Hw|apply wf_str_bigint; exact Hw].
@@ -315,11 +428,13 @@ Proof.
   apply binop_vals_good; assumption.
 Qed.
 
-Lemma good_bool_bin (f : bool -> bool -> eres (value * locals)) o a b :
-  goodE a -> goodE b ->
-  forall ctx, wf_ctx ctx ->
-  (forall x y c, wf_ctx c -> good (f x y) (f x y) \/ True) -> True.
-Proof. trivial. Qed.
+Ltac bin_generic IH1 IH2 ctx Hc :=
+  let a1 := fresh "a1" in let c0 := fresh "c0" in let Ha1 := fresh "Ha1" in let Hc0 := fresh "Hc0" in
+  let b0 := fresh "b0" in let c1 := fresh "c1" in let Hb0 := fresh "Hb0" in let Hc1 := fresh "Hc1" in
+  step IH1 ctx Hc a1 c0 Ha1 Hc0; step IH2 c0 Hc0 b0 c1 Hb0 Hc1;
+  destruct a1; try (apply binop_vals_good; assumption);
+  destruct b0; try (apply binop_vals_good; assumption);
+  first [exact good_err | apply good_ok; [exact I|assumption]].
 
 Theorem eval_good : forall e, wf_expr e -> goodE e.
 Proof.
@@ -328,7 +443,7 @@ Proof.
     destruct sz as [s|]; [|exact I]. cbn [wf_expr] in Hwf. intros _. exact Hwf.
   - apply good_ok; [exact I|exact Hc].
   - (* EStr *) destruct (string_contents raw) as [s|] eqn:E; [|exact good_err].
-    apply good_ok; [|exact Hc]. cbn [wf_value]. admit.
+    apply good_ok; [|exact Hc]. cbn [wf_value]. exact (str_contents_scalar raw s Hwf E).
   - (* EVar *)
     destruct level as [|p]; [|apply pvar_good; exact Hc].
     destruct path as [|n [|? ?]]; try (apply pvar_good; exact Hc).
@@ -340,8 +455,93 @@ Proof.
     destruct v; try exact good_err; destruct o; try exact good_err; try (apply good_ok; [exact I|exact Hc']).
     cbn [code_ops math_ops op_not]. rewrite not_bytes_spec. apply good_ok; [exact I|exact Hc'].
   - (* EBin *) cbn [wf_expr] in Hwf. destruct Hwf as [Hwa Hwb]. specialize (IHe1 Hwa). specialize (IHe2 Hwb).
-    admit.
-  - admit. - admit. - admit. - admit. - admit.
-Admitted.
+    destruct o.
+    + (* Assign *)
+      destruct e1; try exact good_err. destruct level; try exact good_err.
+      destruct path as [|n [|? ?]]; try exact good_err.
+      step IHe2 ctx Hc v c Hv Hc'. apply good_ok; [exact I|]. constructor; [exact Hv|exact Hc'].
+    + bin_generic IHe1 IHe2 ctx Hc.
+    + bin_generic IHe1 IHe2 ctx Hc.
+    + bin_generic IHe1 IHe2 ctx Hc.
+    + bin_generic IHe1 IHe2 ctx Hc.
+    + bin_generic IHe1 IHe2 ctx Hc.
+    + bin_generic IHe1 IHe2 ctx Hc.
+    + bin_generic IHe1 IHe2 ctx Hc.
+    + bin_generic IHe1 IHe2 ctx Hc.
+    + bin_generic IHe1 IHe2 ctx Hc.
+    + bin_generic IHe1 IHe2 ctx Hc.
+    + bin_generic IHe1 IHe2 ctx Hc.
+    + bin_generic IHe1 IHe2 ctx Hc.
+    + bin_generic IHe1 IHe2 ctx Hc.
+    + bin_generic IHe1 IHe2 ctx Hc.
+    + bin_generic IHe1 IHe2 ctx Hc.
+    + bin_generic IHe1 IHe2 ctx Hc.
+    + (* LazyAnd *)
+      step IHe1 ctx Hc v c Hv Hc'. destruct v; try exact good_err.
+      destruct (eqb b false); [apply good_ok; assumption|].
+      step IHe2 c Hc' v2 c2 Hv2 Hc2. destruct v2; try exact good_err. apply good_ok; assumption.
+    + (* LazyOr *)
+      step IHe1 ctx Hc v c Hv Hc'. destruct v; try exact good_err.
+      destruct (eqb b true); [apply good_ok; assumption|].
+      step IHe2 c Hc' v2 c2 Hv2 Hc2. destruct v2; try exact good_err. apply good_ok; assumption.
+    + bin_generic IHe1 IHe2 ctx Hc.
+  - (* ETern *) cbn [wf_expr] in Hwf. destruct Hwf as [Hw1 [Hw2 Hw3]].
+    specialize (IHe1 Hw1). specialize (IHe2 Hw2). specialize (IHe3 Hw3).
+    step IHe1 ctx Hc v c Hv Hc'. destruct v; try exact good_err.
+    destruct b; [apply IHe2|apply IHe3]; exact Hc'.
+  - (* ESlice *) cbn [wf_expr] in Hwf. destruct Hwf as [Hw1 [Hw2 Hw3]].
+    specialize (IHe1 Hw1). specialize (IHe2 Hw2). specialize (IHe3 Hw3).
+    step IHe3 ctx Hc v c Hv Hc'.
+    destruct (get_bigint v) as [x|] eqn:G; [|exact good_err].
+    pose proof (get_bigint_wf v x Hv G) as Hx.
+    step IHe1 c Hc' lv c1 Hlv Hc1. step IHe2 c1 Hc1 rv c2 Hrv Hc2.
+    destruct (expect_usize lv) as [lz|]; [|exact good_err].
+    destruct (expect_usize rv) as [rz|]; [|exact good_err].
+    destruct (lz + 1 >? usize_max); [exact good_err|].
+    destruct (checked_slice_good x (lz + 1) rz Hx) as [-> Hw].
+    destruct (checked_slice math_ops x (lz + 1) rz); [apply good_ok; assumption|exact good_err].
+  - (* EShort *) cbn [wf_expr] in Hwf. destruct Hwf as [Hw1 Hw2].
+    specialize (IHe1 Hw1). specialize (IHe2 Hw2).
+    step IHe2 ctx Hc v c Hv Hc'.
+    destruct (get_bigint v) as [x|] eqn:G; [|exact good_err].
+    pose proof (get_bigint_wf v x Hv G) as Hx.
+    step IHe1 c Hc' sv c1 Hsv Hc1.
+    destruct (expect_usize sv) as [sz|]; [|exact good_err].
+    destruct (checked_slice_good x sz 0 Hx) as [-> Hw].
+    destruct (checked_slice math_ops x sz 0); [apply good_ok; assumption|exact good_err].
+  - (* EBlock *) apply wf_expr_block in Hwf.
+    assert (Hg : Forall goodE es).
+    { clear ctx Hc. induction H as [|x r Hx Hr IHr]; [constructor|].
+      inversion Hwf; subst. constructor; [apply Hx; assumption|apply IHr; assumption]. }
+    clear H Hwf.
+    assert (Hl : wf_value VVoid) by exact I. revert Hl. generalize VVoid as last. revert ctx Hc.
+    induction Hg as [|x r Hx Hr IHr]; intros ctx Hc last Hl.
+    + apply good_ok; assumption.
+    + step Hx ctx Hc v c Hv Hc'. apply IHr; assumption.
+  - (* ECall *) apply wf_expr_call in Hwf. destruct Hwf as [Hwf Hwa]. specialize (IHe Hwf).
+    assert (Hg : Forall goodE args).
+    { clear ctx Hc. induction H as [|x r Hx Hr IHr]; [constructor|].
+      inversion Hwa; subst. constructor; [apply Hx; assumption|apply IHr; assumption]. }
+    clear H Hwa.
+    step IHe ctx Hc fv c Hfv Hc'.
+    assert (Hacc : Forall wf_value (@nil value)) by constructor. revert Hacc. generalize (@nil value) as acc.
+    revert c Hc'. clear ctx Hc.
+    induction Hg as [|x r Hx Hr IHr]; intros ctx Hc acc Hacc.
+    + destruct fv; try exact good_err.
+      destruct (eval_builtin_good name (rev acc) (Forall_rev Hacc)) as [-> Hw].
+      destruct (eval_builtin math_ops name (rev acc)); [apply good_ok; assumption|exact good_err].
+    + step Hx ctx Hc v c Hv Hc'. apply IHr; [assumption|]. constructor; assumption.
+Qed.
 
 End Eval.
+
+Theorem eval_sem : forall pvar e ctx, wf_pvar pvar -> wf_expr e -> wf_ctx ctx ->
+  eval code_ops pvar e ctx = eval math_ops pvar e ctx.
+Proof. intros pvar e ctx Hp He Hc. exact (proj1 (eval_good pvar Hp e He ctx Hc)). Qed.
+
+Theorem eval_wf : forall pvar e ctx v ctx', wf_pvar pvar -> wf_expr e -> wf_ctx ctx ->
+  eval math_ops pvar e ctx = EOk (v, ctx') -> wf_value v /\ wf_ctx ctx'.
+Proof.
+  intros pvar e ctx v ctx' Hp He Hc E. pose proof (proj2 (eval_good pvar Hp e He ctx Hc)) as H.
+  rewrite E in H. exact H.
+Qed.
